@@ -767,7 +767,21 @@ func (a *tagAnalysis) absOf(t tagTuple, v ssa.Value) string {
 	if r := a.lenOfRendered(t, v); r != "" {
 		return r
 	}
-	return a.getVal(t, v)
+	if r := a.getVal(t, v); r != "" {
+		return r
+	}
+	// a comparison or negation that no branch has tested yet: evaluate it from what is known about its operands
+	switch x := v.(type) {
+	case *ssa.BinOp:
+		if isBoolType(x.Type()) {
+			return a.evalCond(t, v)
+		}
+	case *ssa.UnOp:
+		if x.Op == token.NOT {
+			return a.evalCond(t, v)
+		}
+	}
+	return ""
 }
 
 // numeric kinds whose %v rendering is never empty; a json.Number is a non-empty literal by the domain assumption recorded on the obligation.
@@ -1384,6 +1398,18 @@ func (a *tagAnalysis) infoOf(fn *ssa.Function) *fnInfo {
 			mark(ifi.Cond)
 		}
 	}
+	// what is handed to a module function as a boolean or integer steers that function
+	eachInstr(fn, func(b *ssa.BasicBlock, in ssa.Instruction) {
+		if ci, ok := in.(ssa.CallInstruction); ok {
+			if g := staticCallee(ci.Common()); g != nil && a.p.InModule(g) {
+				for _, arg := range ci.Common().Args {
+					if isBoolType(arg.Type()) || isIntType(arg.Type()) {
+						mark(arg)
+					}
+				}
+			}
+		}
+	})
 	eachInstr(fn, func(b *ssa.BasicBlock, in ssa.Instruction) {
 		if v, ok := in.(ssa.Value); ok {
 			fi.defBlock[v.Name()] = b
